@@ -102,6 +102,7 @@ func recoverFile(info types.SegmentInfo, wf types.WritableFile, bufPool *sync.Po
 func (w *Writer) initEmpty() error {
 	// Write header into write buffer to be written out with the first commit.
 	w.writer.writeOffset = 0
+	w.writer.indexStart = 0
 	w.ensureBufCap(fileHeaderLen)
 	w.writer.commitBuf = w.writer.commitBuf[:fileHeaderLen]
 
@@ -176,6 +177,13 @@ func (w *Writer) recoverTail() error {
 
 	// Whichever path we take, fix up the commitIdx before we leave
 	defer func() {
+		// An index frame only seals the segment if it is covered by the commit we
+		// ended up accepting. If it was part of a discarded (torn) batch, forget
+		// it, otherwise the recovered tail refuses appends and a later truncation
+		// would persist an IndexStart that addresses uncommitted bytes.
+		if w.writer.indexStart >= uint64(w.writer.writeOffset) {
+			w.writer.indexStart = 0
+		}
 		ofs := w.getOffsets()
 		if len(ofs) > 0 {
 			// Non atomic is OK because this file is not visible to any other threads
